@@ -62,6 +62,15 @@ def run(ctx: Context) -> None:
         ok1 = ok1 and 'numpy.ma.masked_invalid(values)' in body1 and 'astype(self.sensible_dtype)' in body1
         ctx.check('R10.1', ok1, "floating point tables: NaN entries are masked (masked_invalid) and the rest cast to the integer dtype", ti, branch,
                   construct=f"float branch: {t1}")
+        # a float table opened without masking still has its padding as a finite value named by the attribute
+        unapplied = [st for st in branch.body if isinstance(st, ast.If) and norm_text(st.test) == f"'_FillValue' in {da}.attrs"
+                     and any(isinstance(c, ast.Call) and callee(ctx, ti, c) == 'numpy.ma.masked_equal' and len(c.args) == 2
+                             and norm_text(c.args[1]) == f"{da}.attrs['_FillValue']" for s_ in st.body for c in ast.walk(s_))]
+        inv = [st for st in branch.body if 'numpy.ma.masked_invalid(values)' in norm_text(st)]
+        casts = [st for st in branch.body if 'astype(self.sensible_dtype)' in norm_text(st)]
+        ok1b = len(unapplied) == 1 and bool(inv) and bool(casts) and inv[0].lineno < unapplied[0].lineno < casts[0].lineno
+        ctx.check('R10.1', ok1b, "floating point tables with a _FillValue attribute (opened with mask_and_scale=False, or written by a clip of a float mesh): entries equal to it are masked as well, before the cast", ti,
+                  unapplied[0] if unapplied else branch, construct="float branch: if '_FillValue' in attrs: masked_equal(masked, attrs['_FillValue'])")
         ok2 = False
         ok3 = False
         if len(branch.orelse) == 1 and isinstance(branch.orelse[0], ast.If):
@@ -100,12 +109,12 @@ def run(ctx: Context) -> None:
         for r in gs.returns():
             tests = [norm_text(st.test) for st, inb in enclosing_ifs(gs, r) if inb]
             rv.append((norm_text(r.value), tests))
-        ok = (("0", ["'start_index' not in connectivity.attrs"]) in rv and any(v.endswith('start_index)') and t == ['start_index in {0, 1}'] for v, t in rv)
+        ok = (("0", ["'start_index' not in connectivity.attrs"]) in rv and any(v == 'int(start_index)' and t == ['start_index in {0, 1}'] for v, t in rv)
               and any(v == 'int(start_index)' and t == ["start_index in {'0', '1'}"] for v, t in rv))
         gcfg = ctx.cfg(gs)
         ex = gcfg.exits()
         ok = ok and not [n for k, n in ex if k == 'fall'] and any(k == 'raise' and 'ConventionViolationError' in norm_text(n) for k, n in ex)
-        ctx.check('R10.1', ok, "start_index is 0 when absent, 0/1 as given, '0'/'1' converted, anything else is a ConventionViolationError", gs, gs.node,
+        ctx.check('R10.1', ok, "start_index is 0 when absent, 0/1 converted to int (a float-typed attribute 1.0 passes the membership test: returned as it is, it would turn the index arrays into floats), '0'/'1' converted, anything else is a ConventionViolationError", gs, gs.node,
                   construct=f"_get_start_index returns {rv}")
         # who may read raw connectivity values
         offenders = []
@@ -203,8 +212,12 @@ def run(ctx: Context) -> None:
                 ctx.check('R10.3', ok, f"{elem}_{axis} is element {i} of that pair, looked up dataset-wide", fi, subs[0] if subs else fi.node,
                           construct=f"{elem}_{axis}: {norm_text(subs[0]) if subs else 'lookup not found'}")
         sc = ctx.func(f"{UGRID}._split_coord")
-        ok = any(norm_text(n) == 'x, y = attr.split(None, 1)' for n in sc.body) and all(norm_text(r.value) == '(x, y)' for r in sc.returns())
-        ctx.check('R10.3', ok, "the attribute is split into (x name, y name) in that order", sc, sc.node)
+        from ..pattern import Matcher as _M
+        msc = _M(ctx, sc)
+        # every name is a whole blank-separated word: a single split (maxsplit=1) would leave 'y ' or 'y z' as the second name
+        ok = (msc.stmt('$x, $y = $attr.split()[:2]') is not None or msc.stmt('$x, $y, *$rest = $attr.split()') is not None) \
+            and msc.name('attr') == sc.params[0] and bool(sc.returns()) and all(norm_text(r.value) == f"({msc.name('x')}, {msc.name('y')})" for r in sc.returns())
+        ctx.check('R10.3', ok, "the attribute is split into blank-separated words and (first, second) are the x and y names, in that order; trailing blanks or further names (an elevation coordinate) do not end up in the y name", sc, sc.node)
 
     # ------------------------------------------------------------------ R10.4
     with ctx.section('R10.4'):
@@ -345,7 +358,7 @@ def run(ctx: Context) -> None:
         ok = std is not None and len(scan) == 1 and std.lineno < scan[0].lineno and len(two_def) == 1 and mt.name('two') == norm_text(two_def[0].targets[0]) \
             and any(isinstance(s, ast.If) and norm_text(s.test).endswith('== 2') and any(isinstance(x, ast.Return) for x in s.body) for s in scan[0].body) \
             and norm_text(tw.returns()[-1].value) == mt.name('two')
-        ctx.check('R10.5', ok, "the size-2 dimension is the one named 'Two' when it exists with size 2, else the first dimension of size 2, else a new 'Two'", tw, tw.node,
+        ctx.check('R10.5', ok, "without an edge table to say, the size-2 dimension is the one named 'Two' when it exists with size 2, else the first dimension of size 2, else a new 'Two'", tw, tw.node,
                   construct='two_dimension: standard name first, then any size-2 dimension, then the standard name')
         # an unrelated dimension of size two (exactly two time steps) must not be taken for the pair dimension
         # while an edge table is there to say which one it is
@@ -363,9 +376,9 @@ def run(ctx: Context) -> None:
             declared_only = any("'edge_dimension' in" in norm_text(t) for t, pol in conds)
             if not_edge and size_two and from_edge_table and has_edges and not declared_only:
                 pref = r
-        ok = pref is not None and len(scan) == 1 and pref.lineno < scan[0].lineno and std is not None and std.lineno < pref.lineno
-        ctx.check('R10.5', ok, "when the mesh does not use the name 'Two', the pair dimension is the size-2 dimension of a supplied edge table other than the edge dimension; only then any dimension of size 2", tw,
-                  pref or tw.node, construct='two_dimension: Two, then the non-edge dimension of an edge table, then any size-2 dimension')
+        ok = pref is not None and len(scan) == 1 and std is not None and pref.lineno < std.lineno < scan[0].lineno
+        ctx.check('R10.5', ok, "the pair dimension is first of all the size-2 dimension of a supplied edge table other than the edge dimension (something unrelated may be using the name 'Two'); only then the name 'Two', then any dimension of size 2", tw,
+                  pref or tw.node, construct='two_dimension: the non-edge dimension of an edge table, then Two, then any size-2 dimension')
         he = ctx.func(f"{TOPO}.has_edge_dimension")
         txt = ' '.join(norm_text(s) for s in he.body)
         ok = ("if 'edge_dimension' in self.mesh_attributes: return True" in txt.replace('\n', ' ')
@@ -389,7 +402,7 @@ VARIANTS = [
     V('C10', 'start-index-before-masking', _U, "        values = data_array.values\n\n        if not issubclass", "        values = data_array.values - _get_start_index(data_array)\n\n        if not issubclass", 'R10.1'),
     V('C10', 'transpose-test-last-dim', _U, "        if data_array.dims[0] != primary_dimension:\n            data_array = data_array.transpose()", "        if data_array.dims[-1] != primary_dimension:\n            data_array = data_array.transpose()", 'R10.1'),
     V('C10', 'fill-from-encoding', _U, "        elif '_FillValue' in data_array.attrs:", "        elif '_FillValue' in data_array.encoding:", 'R10.1'),
-    V('C10', 'start-index-two-allowed', _U, "    if start_index in {0, 1}:\n        return cast(int, start_index)", "    if start_index in {0, 1, 2}:\n        return cast(int, start_index)", 'R10.1'),
+    V('C10', 'start-index-two-allowed', _U, "    if start_index in {0, 1}:\n", "    if start_index in {0, 1, 2}:\n", 'R10.1'),
     V('C10', 'array-bypasses-normaliser', _U, "        if self.has_valid_edge_face_connectivity:\n            return self._to_index_array(\n                self.edge_face_connectivity, self.edge_dimension)", "        if self.has_valid_edge_face_connectivity:\n            return numpy.ma.masked_invalid(self.edge_face_connectivity.values).astype(int)", 'R10.2'),
     V('C10', 'derived-preferred', _U, "        if self.has_valid_face_edge_connectivity:\n            return self._to_index_array(\n                self.face_edge_connectivity, self.face_dimension)\n\n        return self.make_face_edge_array()", "        return self.make_face_edge_array()", 'R10.2'),
     V('C10', 'face-face-primary-wrong', _U, "                self.face_face_connectivity, self.face_dimension)", "                self.face_face_connectivity, self.max_node_dimension)", 'R10.2'),
@@ -400,6 +413,11 @@ VARIANTS = [
     V('C10', 'ordered-pair-lookup', _U, "                edge_index = node_pair_to_edge_index[frozenset(node_pair)]", "                edge_index = node_pair_to_edge_index[tuple(node_pair)]", 'R10.4'),
     V('C10', 'face-face-one-direction', _U, "            face_face[right, face_count[right]] = left\n", "", 'R10.4'),
     V('C10', 'edge-dimension-inferred-first', _U, "        with suppress(KeyError):\n            return self.mesh_attributes['edge_dimension']\n", "", 'R10.5'),
+    V('C10', 'two-dimension-name-first', _U, "        two = 'Two'\n", "        two = 'Two'\n        if two in self.dataset.sizes and self.dataset.sizes[two] == 2:\n            return two\n", 'R10.5'),
+    V('C10', 'split-coord-once', _U, "    x, y = attr.split()[:2]", "    x, y = attr.split(None, 1)", 'R10.3'),
+    V('C10', 'start-index-returned-as-given', _U, "        return int(start_index)\n\n    # Some datasets", "        return start_index\n\n    # Some datasets", 'R10.1'),
+    V('C10', 'float-fill-attribute-ignored', _U, "            if '_FillValue' in data_array.attrs:\n                # A float variable that xarray has not applied the fill value to,\n                # opened with mask_and_scale=False\n                masked_values = numpy.ma.masked_equal(masked_values, data_array.attrs['_FillValue'])\n", "", 'R10.1'),
+    V('C10', 'fill-check-without-edge-dimension', _U, "        if '_FillValue' in data_array.encoding and self.has_edge_dimension:", "        if '_FillValue' in data_array.encoding:", 'R10.2'),
     V('C10', 'two-dimension-any-size-2', _U, "        if two in self.dataset.sizes and self.dataset.sizes[two] == 2:\n            return two\n", "", 'R10.5'),
     V('C10', 'masked-invalid-no-copy', _U, "            masked_values = numpy.ma.masked_invalid(values)", "            masked_values = numpy.ma.masked_invalid(values, copy=False)", 'R10.6'),
     V('C10', 'face-dimension-fallback-last', _U, "            return self.face_node_connectivity.dims[0]", "            return self.face_node_connectivity.dims[-1]", 'R10.5'),
